@@ -1,6 +1,7 @@
 import Driver.SafePtr
 import Driver.Sched
 import Driver.Guard
+import Driver.Unwind
 import Driver.PtrCell
 import Driver.Dict
 import Driver.BlockAlloc
@@ -21,6 +22,7 @@ def main (args : List String) : IO UInt32 := do
   | ["safeptr"] => Driver.SafePtr.main; return 0
   | ["sched"] => Driver.Sched.main; return 0
   | ["guard"] => Driver.Guard.main; return 0
+  | ["unwind"] => Driver.Unwind.main; return 0
   | ["ptrcell"] => Driver.PtrCell.main; return 0
   | ["dict"] => Driver.Dict.main; return 0
   | ["blockalloc"] => Driver.BlockAlloc.main; return 0
